@@ -143,8 +143,23 @@ def replay_optimizer(rep):
     return False, info
 
 
+def replay_printer(rep):
+    """C07: the export check (independent reader) on generated formulas: a printed text that is illegal
+    or denotes something else is the failing input"""
+    from native import bounded_smt
+    for seed in (int(rep.get("seed", 0)), 1, 2, 3):
+        for chk in (bounded_smt.export_check, bounded_smt.quote_check):
+            r = chk("quick", seed)
+            if r["violations"]:
+                return True, {"mode": "generated formulas exported and read by the independent SMT-LIB reader",
+                              "failure": r["violations"][0]}
+    return False, {"mode": "generated formulas exported and read by the independent SMT-LIB reader: nothing found"}
+
+
 def dispatch(rep):
     kind = rep.get("kind")
+    if kind == "printer":
+        return replay_printer(rep)
     if kind == "optimizer":
         return replay_optimizer(rep)
     if kind == "substitution":
